@@ -42,6 +42,9 @@ RecChecks(kt, c, F) ==
        Chk("C08", "pairs_sorted", IsSortedPairs(c.pairs)),
        \* C04: every record the library returns encodes to bytes that its own decoder takes back as an equal record
        Chk("C04", "returned_record_decodes_back_to_an_equal_record", c.again # <<FALSE>>),
+       \* C05: ... "and is accepted again by the decoder" -- the implementation's own, whatever the specification thinks of
+       \* the bytes (also where it leaves them open, e.g. the inside of list values under custom keys)
+       Chk("C05", "accepted_again_by_the_decoder", c.again # <<FALSE>>),
        \* whatever produced the record: its node id is the id of the key its own public-key accessor returns
        Chk("C10", "nid_from_public_key", c.nid_pk # <<>> => c.nid_pk = <<c.nid>>),
        Chk("TOOL", "rec_facts_match", factsOk)>>
@@ -52,9 +55,7 @@ RecChecks(kt, c, F) ==
        \o When(D.verdict = "accept",
          <<Chk("C10", "nid_is_hash_of_pk", c.nid = D.nid),
            Chk("C10", "nid_from_public_key_accessor_works", c.nid_pk # <<>>),
-           Chk("C05", "public_key_accessor", c.pk = <<D.pk>>),
-           \* the implementation's own decoder takes the record's encoding back, as an equal record
-           Chk("C05", "accepted_again_by_the_decoder", c.again = <<TRUE>>)>>))
+           Chk("C05", "public_key_accessor", c.pk = <<D.pk>>)>>))
 
 (***************************************************************************)
 (* Extended observation of a record: text forms, typed accessors, getters, *)
